@@ -195,51 +195,55 @@ example : ∃ tbl, Shared.decodeC [] (Shared.encodeC []
 
 /-! ## Clean-up (`_clean_up_state`) -/
 
-/-- The sweep removes exactly the instances that satisfy the removal predicate
-    (done ∧ older than the age ∧ not activated) — order of the others untouched. -/
+/-- The sweep removes exactly the instances that satisfy the removal predicate (done ∧ older than the age ∧ not
+    activated ∧ not the parent of an activated instance) — order of the others untouched. -/
 theorem cleanup_removes_exactly {α : Type} (now age : Int) (s : St α) (hnd : (s.flows.map (·.uid)).Nodup) :
-    (sweep now age s).flows.map (·.uid) = (s.flows.filter (fun f => !removable now age f)).map (·.uid) := by
+    (sweep now age s).flows.map (·.uid)
+      = (s.flows.filter (fun f => !removable now age (neededParents s.flows) f)).map (·.uid) := by
   unfold sweep
   simp only
   rw [fold_uids]
   simp only [List.map_map, Function.comp_def]
   have hu : ∀ f : Flow, (clearScores f).uid = f.uid := fun _ => rfl
   simp only [hu]
-  generalize hfl : s.flows = fl at hnd
-  have hrm : ∀ f ∈ fl, (toRemove now age (fl.map clearScores)).contains f.uid = removable now age f := by
+  generalize hnd' : neededParents s.flows = nd
+  have hrm : ∀ f ∈ s.flows, (toRemove now age (s.flows.map clearScores)).contains f.uid = removable now age nd f := by
     intro f hf
-    cases hr : removable now age f
+    cases hr : removable now age nd f
     · rw [Bool.eq_false_iff]
       intro hc
       simp only [toRemove, List.contains_eq_mem, List.mem_map, List.mem_filter, decide_eq_true_eq] at hc
       obtain ⟨g', ⟨⟨g, hg, rfl⟩, hgr⟩, hgu⟩ := hc
-      rw [removable_clearScores] at hgr
-      have : g = f := eq_of_nodup_uids fl hnd g hg f hf (by simpa [hu] using hgu)
+      rw [removable_clearScores, neededParents_clearScores, hnd'] at hgr
+      have : g = f := eq_of_nodup_uids s.flows hnd g hg f hf (by simpa [hu] using hgu)
       subst this; simp [hr] at hgr
     · simp only [toRemove, List.contains_eq_mem, List.mem_map, List.mem_filter, decide_eq_true_eq]
-      exact ⟨clearScores f, ⟨⟨f, hf, rfl⟩, by rw [removable_clearScores]; exact hr⟩, rfl⟩
-  clear hnd hfl
-  generalize toRemove now age (fl.map clearScores) = rm at hrm
+      exact ⟨clearScores f, ⟨⟨f, hf, rfl⟩, by rw [removable_clearScores, neededParents_clearScores, hnd']; exact hr⟩, rfl⟩
+  clear hnd
+  generalize toRemove now age (s.flows.map clearScores) = rm at hrm
+  generalize s.flows = fl at hrm
   induction fl with
   | nil => rfl
   | cons a l ih =>
     have ha := hrm a (List.mem_cons_self)
     have ih' := ih (fun f hf => hrm f (List.mem_cons_of_mem _ hf))
     simp only [List.map_cons, List.filter_cons, ha]
-    cases removable now age a <;> simp_all
+    cases removable now age nd a <;> simp_all
 
-/-- Never an active, an activated or a young instance: whoever fails the predicate is still there. -/
+/-- Never an active, an activated or a young instance, nor the parent of an activated one: whoever fails the predicate
+    is still there. -/
 theorem cleanup_keeps_live {α : Type} (now age : Int) (s : St α) (hnd : (s.flows.map (·.uid)).Nodup)
     (f : Flow) (hf : f ∈ s.flows)
-    (h : isDone f = false ∨ f.activated ≠ 0 ∨ now - f.updated ≤ age) :
+    (h : isDone f = false ∨ f.activated ≠ 0 ∨ now - f.updated ≤ age ∨ f.uid ∈ neededParents s.flows) :
     f.uid ∈ (sweep now age s).flows.map (·.uid) := by
   rw [cleanup_removes_exactly now age s hnd]
   refine List.mem_map.2 ⟨f, List.mem_filter.2 ⟨hf, ?_⟩, rfl⟩
-  rcases h with h | h | h
+  rcases h with h | h | h | h
   · simp [removable, h]
   · simp [removable, h]
   · have : ¬ (now - f.updated > age) := by omega
     simp [removable, this]
+  · simp [removable, h]
 
 /-- Frame: every record that remains is the original one with its matching scores cleared and, in
     `child_flow_uids`, only uids of removed instances dropped; it was not removable itself. -/
@@ -253,13 +257,13 @@ theorem cleanup_frame {α : Type} (now age : Int) (s : St α) (g : Flow) (hg : g
 
 /-- If nothing is removable (e.g. no time has passed) the sweep only clears matching scores. -/
 theorem cleanup_noop_when_young {α : Type} (now age : Int) (s : St α)
-    (h : ∀ f ∈ s.flows, removable now age f = false) :
+    (h : ∀ f ∈ s.flows, removable now age (neededParents s.flows) f = false) :
     sweep now age s = { s with flows := s.flows.map clearScores } := by
   unfold sweep
   have : toRemove now age (s.flows.map clearScores) = [] := by
     simp only [toRemove, List.map_eq_nil_iff, List.filter_eq_nil_iff, List.mem_map]
     rintro a ⟨f, hf, rfl⟩
-    rw [removable_clearScores, h f hf]; simp
+    rw [removable_clearScores, neededParents_clearScores, h f hf]; simp
   simp [this]
 
 /-- Actions: exactly the actions referenced by the remaining instances survive, each unchanged. -/
@@ -285,25 +289,52 @@ theorem cleanup_keeps_index {α : Type} (now age : Int) (s : St α) (hnd : (s.fl
     (h : IdxOk s) : IdxOk (sweep now age s) :=
   sweep_idx now age s hnd h
 
-/-- Key lemma towards T3 (the look-ups by uid that the interpreter performs WITHOUT an existence guard on child links:
-    `_abort_flow`'s deactivation loop `state.flow_states[child_uid]`): if before the clean-up every entry of every
-    `child_flow_uids` list names an existing instance whose `parent_uid` points back (and no uid is listed twice), the
-    same holds afterwards — the clean-up never leaves a kept instance with a child uid that no longer resolves.
-    (The hypothesis "no uid is listed twice" is where C09's open finding `dangling-child` lives: a flow activated n
-    times is listed n times and only one occurrence is removed.) -/
+/-- `flow_id in state.flow_id_states` (what `CheckValidFlowExistsAction` and through it the llm.co library flows
+    observe) does not depend on idle time: the sweep never adds or drops a key of the helper index. -/
+theorem cleanup_keeps_known_flow_ids {α : Type} (now age : Int) (s : St α) :
+    (sweep now age s).idx.map (·.1) = s.idx.map (·.1) := by
+  unfold sweep
+  rw [fold_idx_keys]
+
+/-- Key lemmas towards T3: the uids the interpreter looks up WITHOUT an existence guard keep resolving after the clean-up.
+    (1) child links (`_abort_flow`'s deactivation loop `state.flow_states[child_uid]`): if every entry of every
+    `child_flow_uids` list names an existing instance whose `parent_uid` points back, the same holds afterwards (every
+    occurrence of a removed uid is dropped: repair b724762, C09's `dangling-child`). -/
 theorem cleanup_keeps_child_links {α : Type} (now age : Int) (s : St α) (hnd : (s.flows.map (·.uid)).Nodup)
     (h : LinksOk s) : LinksOk (sweep now age s) :=
   sweep_links now age s hnd h
 
-/-- Ageing is monotone: what is removable now stays removable later. -/
-theorem removable_mono (now now' age : Int) (f : Flow) (hle : now ≤ now') (h : removable now age f = true) :
-    removable now' age f = true := by
-  simp only [removable, Bool.and_eq_true, decide_eq_true_eq] at h ⊢
-  exact ⟨⟨h.1.1, by omega⟩, h.2⟩
+/-- (2) scope lists (repair b724762, C09's `dangling-scope-flow`): every uid listed in an open scope keeps resolving. -/
+theorem cleanup_keeps_scope_links {α : Type} (now age : Int) (s : St α) (h : ScopesOk s) : ScopesOk (sweep now age s) :=
+  sweep_scopes now age s h
 
-example : removable 10000000 ageMicros
+/-- (3) the parent pointer of ACTIVATED instances (`_is_reference_activated_flow` evaluates
+    `state.flow_states[flow_state.parent_uid]` without a guard when `activated > 0`): it keeps resolving — this is the
+    repair fixes/C11-cleanup-dangling-parent.diff (finding "cleanup-dangling-parent": a flow activated by two parents,
+    the first one finishes and is discarded, the second one finishes ⇒ `KeyError`). -/
+theorem cleanup_keeps_activated_parents {α : Type} (now age : Int) (s : St α) (h : ActivatedParentsOk s) :
+    ActivatedParentsOk (sweep now age s) :=
+  sweep_activated_parents now age s h
+
+/-- … and without that repair it does not: the witness of the finding at the function level (the sweep with an empty
+    `needed` list is the clean-up before the repair). -/
+theorem dangling_parent_as_is_counterexample :
+    let p1 : Flow := { uid := "p1", flowId := "par1", parent := some "m", children := [], status := .finished, updated := 0,
+                       activated := 0, actionUids := [], heads := [], scopeFlows := [] }
+    let sh : Flow := { uid := "s", flowId := "shared", parent := some "p1", children := [], status := .started, updated := 0,
+                       activated := 1, actionUids := [], heads := [], scopeFlows := [] }
+    removable 10000000 ageMicros [] p1 = true ∧ removable 10000000 ageMicros (neededParents [p1, sh]) p1 = false := by
+  decide
+
+/-- Ageing is monotone: what is removable now stays removable later. -/
+theorem removable_mono (now now' age : Int) (nd : List String) (f : Flow) (hle : now ≤ now')
+    (h : removable now age nd f = true) : removable now' age nd f = true := by
+  simp only [removable, Bool.and_eq_true, decide_eq_true_eq] at h ⊢
+  exact ⟨⟨⟨h.1.1.1, by omega⟩, h.1.2⟩, h.2⟩
+
+example : removable 10000000 ageMicros []
     { uid := "a", flowId := "f", parent := some "m", children := [], status := .finished, updated := 0,
-      activated := 0, actionUids := [], heads := [] } = true := by decide
+      activated := 0, actionUids := [], heads := [], scopeFlows := [] } = true := by decide
 
 /-! ## T3 — stated over the whole-interpreter model `CoreVM` (statement only; decided by correspondence) -/
 
@@ -333,10 +364,11 @@ inductive ReachableVM : VM → Prop where
     counter, which the clean-up does not touch, so "up to fresh identifiers" is literal equality here.
     NOT proved: it needs, for every unguarded look-up by uid in `CoreVM` (`getInstX`, `getInst`, the `KeyError`
     branches marked "model line …"), that the uid names a kept instance — `cleanup_keeps_child_links`,
-    `cleanup_keeps_index` and `cleanup_frame` give this for child links, `flow_id_states` and the records themselves at
-    the function level; the parent look-ups of activated children (`isReferenceActivated`, `restartActivated`), event
-    references (`source_flow_instance_uid`, always produced after the clean-up of the same `run_to_completion`) and
-    scope lists (C09's open finding `dangling-scope-flow`) need reachable-state invariants of the whole interpreter. -/
+    `cleanup_keeps_scope_links`, `cleanup_keeps_activated_parents`, `cleanup_keeps_index`, `cleanup_keeps_known_flow_ids`
+    and `cleanup_frame` give this at the function level for child links, scope lists, the parent pointer of activated
+    instances, `flow_id_states` and the records themselves; event references (`source_flow_instance_uid`, always produced
+    after the clean-up of the same `run_to_completion`) and the lifting of these invariants to every reachable `VM` state
+    need the whole interpreter. -/
 def CleanupBisim : Prop :=
   ∀ (fuel : Nat) (s : VM) (dt : Nat) (es : List Match.Ev) (o1 o2 : List (List Match.Ev)),
     ReachableVM s → feed fuel es s = some o1 → feed fuel es (aged dt s) = some o2 → o1 = o2
